@@ -197,6 +197,22 @@ theorem gen_exceeds_eq (ps t w : Nat) :
   simp [effTrunc, gen_calcWALSize_eq]
   try (split <;> simp <;> omega)
 
+/-- **A chunked catch-up always reaches the checkpoint decision.** Whenever `Sync`'s chunk
+    loop stops after a chunk that copied something, the checkpoint decision was evaluated for that
+    chunk — so `MaxSyncWALBytes` can delay the decision but never skip it at the end of a catch-up. -/
+theorem chunked_sync_reaches_ckpt (synced limited syncedToWALEnd exceedsTruncate : Bool)
+    (hexit : loopExit synced limited syncedToWALEnd = true) (hs : synced = true) :
+    ckGate limited syncedToWALEnd exceedsTruncate = true := by
+  cases synced <;> cases limited <;> cases syncedToWALEnd <;> cases exceedsTruncate <;> simp_all [loopExit, ckGate]
+
+/-- The truncate emergency is honoured even mid catch-up. -/
+theorem truncate_gate_always_open (limited syncedToWALEnd : Bool) : ckGate limited syncedToWALEnd true = true := by
+  cases limited <;> cases syncedToWALEnd <;> rfl
+
+theorem gen_checkpointGate_eq : ∀ (a b c d : Bool), Gen.Ck.checkpointGate a b c d = ckGate b c d := by decide
+
+theorem gen_syncLoopExit_eq : ∀ (a b c d : Bool), Gen.Ck.syncLoopExit a b c d = loopExit a b c := by decide
+
 /-! ### Non-vacuity -/
 example : idleIter ⟨4096, 1000, 0, 0⟩ 7 ⟨37, 5, true⟩ = ⟨37, 5, true⟩ := by decide
 example : idleIter ⟨512, 4, 0, 0⟩ 7 ⟨9, 5, true⟩ = ⟨1, 6, false⟩ := by decide
